@@ -29,6 +29,17 @@ class Unknown:
         return "?%s" % self.tag
 
 
+class Rec:
+    """A stand-in for an object of the program inside a constant: its class name and the attributes a scenario gives it."""
+
+    def __init__(self, cls, **fields):
+        self.cls = cls
+        self.fields = fields
+
+    def __repr__(self):
+        return "<%s %s>" % (self.cls, ", ".join(sorted(self.fields)))
+
+
 class Obj(Unknown):
     """An unknown value that is known not to be None (bytes received, an object just built)."""
 
@@ -479,6 +490,13 @@ class Interp:
                     res.append((v, s))
                 elif isinstance(v, Const) and v.v is None:
                     res.append((Exc("AttributeError", e), s))
+                elif isinstance(v, Const) and isinstance(v.v, Rec):
+                    if e.attr in v.v.fields:
+                        res.append((Const(v.v.fields[e.attr]), s))
+                    elif getattr(self, "getattr_hook", None) is not None:
+                        res.extend(self.getattr_hook(self, v.v, e, s))
+                    else:
+                        res.append((Unknown(norm(e)), s))
                 else:
                     res.append((Unknown(norm(e)), s))
             return res
@@ -681,6 +699,12 @@ class Interp:
                         ok = False
                         break
                     out.append(r[0][0].v)
+                    if r[0][1] is not s:
+                        # what the element's evaluation did (events of calls) belongs to the path
+                        s.events[:] = r[0][1].events
+                        for k_, v_ in r[0][1].env.items():
+                            if k_ != g.target.id:
+                                s.env[k_] = v_
                 if had:
                     s.env[g.target.id] = saved
                 else:
